@@ -179,6 +179,13 @@ func (c *c01Gen) expr(t c01Type, depth int) string {
 			// default evaluated at definition, arguments at call
 			dflt := c.expr(tInt, depth-1)
 			arg := c.expr(tInt, depth-1)
+			if g.Chance(1, 3) {
+				// positional defaults are evaluated before keyword-only defaults, left to right, all at definition
+				c.use("lambda-kwonly-defaults")
+				d2 := c.expr(tInt, depth-1)
+				d3 := c.leafInt()
+				return "(lambda a, b=" + dflt + ", *r, c=" + d2 + ", d=" + d3 + ", **k: a - b + c * d)(" + arg + g.Str("", ", c=1", ", 2, 3", ", d=2") + ")"
+			}
 			if g.Bool() {
 				return "(lambda a, b=" + dflt + ": a - b)(" + arg + ")"
 			}
@@ -198,7 +205,17 @@ func (c *c01Gen) expr(t c01Type, depth int) string {
 			// (functions, classes, modules, instances, None): == and != fall back to identity, ordering is a TypeError
 			c.use("compare-any")
 			a, b := c.leafObj(), c.leafObj()
-			switch g.Weighted(4, 2, 2, 1) {
+			switch g.Weighted(4, 2, 2, 1, 4) {
+			case 4:
+				// numbers of different types (int, bool, float) compare by value through the reflected method of the other operand
+				num := func() string {
+					return fmt.Sprintf("v(%d, %s)", c.k(), g.Str("0", "1", "2", "-1", "True", "False", "0.0", "1.0", "2.0", "-1.0", "1.5", "2**53", "2.0**53", "2**53 + 1"))
+				}
+				e := "(" + num()
+				for i, n := 0, g.Int(1, 3); i < n; i++ {
+					e += " " + c01CmpOps[g.N(6)] + " " + num()
+				}
+				return e + ")"
 			case 0:
 				return "(" + a + " " + g.Str("==", "!=", "==", "!=", "is", "is not") + " " + b + ")"
 			case 1:
@@ -579,6 +596,16 @@ func c01Tables(r *Run) {
 		exprs = append(exprs, "v(1, 3) "+a+" v(2, 2) if v(3, 0) else v(4, 5) "+a+" v(5, 2)")
 		exprs = append(exprs, "(lambda: v(1, 3) "+a+" v(2, 2))()")
 		exprs = append(exprs, "v(1, 3) if v(2, 1) else v(3, 4) if v(4, 0) else v(5, 2) "+a+" v(6, 1)")
+	}
+	// comparison of numbers of different types: every operator over every pair of an int, a bool and a float (equal and unequal
+	// values, and 2**53 where a float stops holding every int), each operand logging its evaluation
+	nums := []string{"0", "1", "2", "-1", "True", "False", "0.0", "1.0", "2.0", "-1.0", "1.5", "2**53", "2.0**53", "2**53 + 1"}
+	for _, a := range nums {
+		for _, b := range nums {
+			for _, op := range c01CmpOps {
+				exprs = append(exprs, "v(1, "+a+") "+op+" v(2, "+b+")")
+			}
+		}
 	}
 	const batch = 150
 	for i := 0; i < len(exprs); i += batch {
